@@ -66,7 +66,10 @@ class OsslEnd(object):
         if server_side:
             c, k, _ = KEYS[cfg['server_key']]
             ctx.load_cert_chain(os.path.join(TESTS, c), os.path.join(TESTS, k))
-            if cfg.get('client_auth'):
+            if cfg.get('client_auth') or cfg.get('pha'):
+                if cfg.get('pha'):
+                    # certificate requested only after the handshake (SSL_VERIFY_POST_HANDSHAKE)
+                    ctx.post_handshake_auth = True
                 ctx.verify_mode = ssl.CERT_REQUIRED
                 ctx.load_verify_locations(os.path.join(TESTS, CLIENT_KEYS[cfg['client_key']][0]))
             if cfg.get('no_tickets'):
@@ -76,6 +79,8 @@ class OsslEnd(object):
         else:
             ctx.check_hostname = False
             ctx.verify_mode = ssl.CERT_NONE
+            if cfg.get('pha'):
+                ctx.post_handshake_auth = True
             if cfg.get('client_key'):
                 c, k = CLIENT_KEYS[cfg['client_key']]
                 ctx.load_cert_chain(os.path.join(TESTS, c), os.path.join(TESTS, k))
@@ -205,7 +210,7 @@ def one_connection(cfg, tag, tl_session=None, ossl_session=None, shared=None):
     if cfg['role'] == 'tl_client':
         os_end = OsslEnd(True, cfg, b)
         kw = {'settings': st, 'async_': True}
-        if cfg.get('client_auth') and cfg.get('client_key'):
+        if (cfg.get('client_auth') or cfg.get('pha')) and cfg.get('client_key'):
             ch, k = U.cred(cfg['client_key'])
             kw.update(certChain=ch, privateKey=k)
         if cfg.get('tl_alpn') is not None:
@@ -242,7 +247,64 @@ def one_connection(cfg, tag, tl_session=None, ossl_session=None, shared=None):
                    tl_client_chain=tl.session.clientCertChain is not None and tl.session.clientCertChain.getNumCerts() > 0,
                    ossl_peer_cert=o.getpeercert(binary_form=True) is not None)
         exchange(tl, os_end, obs, tag)
+        if obs['tl_version'] == 4 and (cfg.get('pha') or cfg.get('keyupdate')):
+            post_handshake(cfg, tl, os_end, obs, st)
     return obs, tl, os_end
+
+
+def _pump(tl, os_end, direction, data):
+    got = bytearray()
+    if direction == 'tl->ossl':
+        res = loop.drive([tl.writeAsync(data), os_end.read_total(len(data), got)], max_steps=400000)
+    else:
+        res = loop.drive([os_end.write(data), tl_reader(tl, len(data), got)], max_steps=400000)
+    ok = all(r[0] == 'ok' for r in res) and bytes(got) == data
+    return ok, None if ok else '%r got %d/%d %s' % ([loop.classify(r) for r in res], len(got), len(data), os_end.error)
+
+
+def post_handshake(cfg, tl, os_end, obs, st):
+    """TLS 1.3 post-handshake traffic on an established connection: cfg['pha'] rounds of post-handshake client
+    authentication requested by the server side (OpenSSL: verify_client_post_handshake(); tlslite-ng:
+    request_post_handshake_auth()), each followed by data both ways; then a KeyUpdate sent by tlslite-ng
+    (update_requested) followed by data both ways."""
+    from tlslite.constants import KeyUpdateMessageType
+    rounds = []
+    to_client, to_server = ('ossl->tl', 'tl->ossl') if cfg['role'] == 'tl_client' else ('tl->ossl', 'ossl->tl')
+    for k in range(cfg.get('pha') or 0):
+        r = {'round': k + 1}
+        try:
+            if cfg['role'] == 'tl_client':
+                os_end.obj.verify_client_post_handshake()
+            else:
+                q = loop.drive([tl.request_post_handshake_auth(st)])
+                if q[0][0] != 'ok':
+                    r['request'] = repr(loop.classify(q[0]))
+            # the request travels with the next server->client data, the answer with the next client->server data
+            ok1, e1 = _pump(tl, os_end, to_client, b'after-request-%d ' % k * 64)
+            ok2, e2 = _pump(tl, os_end, to_server, b'after-answer-%d ' % k * 64)
+            ok3, e3 = _pump(tl, os_end, to_client, b'again-%d ' % k * 64)
+            r['data_ok'] = ok1 and ok2 and ok3
+            r['err'] = e1 or e2 or e3
+            if cfg['role'] == 'tl_client':
+                r['cert_seen'] = os_end.obj.getpeercert(binary_form=True) is not None
+            else:
+                ch = tl.session.clientCertChain
+                r['cert_seen'] = ch is not None and ch.getNumCerts() > 0
+        except Exception as e:  # noqa  (OpenSSL refuses further calls once the connection has failed)
+            r.setdefault('data_ok', False)
+            r['cert_seen'] = r.get('cert_seen', False)
+            r['err'] = r.get('err') or '%s %s' % (type(e).__name__, getattr(e, 'reason', None) or e)
+        rounds.append(r)
+        if not r.get('data_ok'):
+            break
+    obs['pha_rounds'] = rounds
+    if cfg.get('keyupdate') and all(r.get('data_ok') for r in rounds):      # a dead connection is reported once
+        q = loop.drive([tl.send_keyupdate_request(KeyUpdateMessageType.update_requested)])
+        ok0 = q[0][0] == 'ok'
+        tl_out, os_out = ('tl->ossl', 'ossl->tl')
+        ok1, e1 = _pump(tl, os_end, tl_out, b'after-keyupdate ' * 1200)
+        ok2, e2 = _pump(tl, os_end, os_out, b'answer-after-keyupdate ' * 1200)
+        obs['keyupdate'] = {'ok': ok0 and ok1 and ok2, 'err': e1 or e2}
 
 
 def run_config(cfg):
@@ -252,11 +314,19 @@ def run_config(cfg):
         shared = {} if cfg.get('resume') else None
         obs, tl, os_end = one_connection(cfg, 'first', shared=shared)
         if cfg.get('resume') and obs['completed']:
-            if cfg['role'] == 'tl_client':
-                o2, _, _ = one_connection(cfg, 'second', tl_session=tl.session, shared=shared)
-            else:
-                o2, _, _ = one_connection(cfg, 'second', ossl_session=os_end.obj.session, shared=shared)
-            obs['second'] = o2
+            # cfg['resume'] = number of resumed connections in a row, each offering the previous one's session
+            n = cfg['resume'] if isinstance(cfg['resume'], int) and not isinstance(cfg['resume'], bool) else 1
+            later = []
+            for k in range(n):
+                if cfg['role'] == 'tl_client':
+                    o2, tl, os_end = one_connection(cfg, 'resumed%d' % (k + 1), tl_session=tl.session, shared=shared)
+                else:
+                    o2, tl, os_end = one_connection(cfg, 'resumed%d' % (k + 1), ossl_session=os_end.obj.session, shared=shared)
+                later.append(o2)
+                if not o2.get('completed'):
+                    break
+            obs['second'] = later[0]
+            obs['resumed_chain'] = later
         return obs
     except ssl.SSLError as e:      # OpenSSL refused to build this configuration
         return {'not_covered': 'OpenSSL cannot build this configuration: %s' % (getattr(e, 'reason', None) or e)}
